@@ -5,14 +5,17 @@ MODELS = ['qt_core.c', 'qt_list.c', 'qt_dom.c', 'models.c']
 B_PRE = 'pre-state: 2 roster slots (each used or not; keys <= 3 arbitrary UTF-16 units, name <= 1 unit, any subscription value), received flag arbitrary'
 B_IQ = 'iq: type attribute any string <= 6 units, id <= 2 units, own bare JID 1..3 units without "/"; items: jid <= 3 units, name <= 1 unit, subscription in {absent/empty, none, both, from, to, remove}'
 def I(name, bound, **kw):
-    d = dict(name=name, entry='h_' + name, unwind=7, timeout_s=240, mem_gb=6, bound=bound); d.update(kw); return d
+    d = dict(name=name, entry='h_' + name, unwind=7, timeout_s=240, mem_gb=3, bound=bound); d.update(kw); return d
 SPEC = dict(
     property='C12',
     groups=[
         dict(name='roster', harness='h.cpp', tus=TUS, models=MODELS, shadow_task=True,
              instances=[
+                 I('presence', 'presence table 2 contacts (bare JID 1..2 units) x 2 resources (<= 2 units), each used or not; stanza: from any string <= 5 units, type any but subscribe', mem_gb=6),
                  I('push_unauth_n1', 'from present, any string <= 5 units whose bare part differs from the own bare JID; 1 item; ' + B_IQ + '; ' + B_PRE),
                  I('push_unauth_n2', 'as push_unauth_n1 with 2 items'),
+                 I('foreign_tag', 'one-item roster push without from whose element name is any string <= 2 units other than iq; ' + B_PRE),
+                 I('foreign_ns', 'iq whose query child is in any namespace <= 4 units (never the roster namespace), one item; ' + B_PRE),
                  I('push_auth_nofrom_n2', 'no from attribute; 2 items; ' + B_IQ + '; ' + B_PRE),
                  I('push_auth_from_n2', 'from present: empty, own bare JID, or own bare JID + "/" + any resource (<= 5 units in total); 2 items'),
                  I('push_auth_from_n1', 'as push_auth_from_n2 with 1 item'),
@@ -22,17 +25,14 @@ SPEC = dict(
                  I('connected_result_resumed', 'resumed stream whose roster was not yet received; then the roster result with 2 items'),
                  I('connected_error', 'new stream, authenticated; the roster request fails (QXmppError)'),
                  I('disconnected', 'stream-management state in {none, new, resumed}; ' + B_PRE + '; presence table 2 contacts x 1 resource'),
-                 I('presence', 'presence table 2 contacts (bare JID 1..2 units) x 1 resource (<= 2 units), each used or not; stanza: from any string <= 5 units, type any but subscribe', mem_gb=8),
              ]),
-        dict(name='roster_r2', harness='h.cpp', tus=TUS, models=MODELS, shadow_task=True, cxxdefs={'PRES_NRES': 2},
-             instances=[I('presence_r2', 'as presence with 2 resources per contact in the pre-state', entry='h_presence', tiers=('thorough',), timeout_s=400, mem_gb=12)]),
     ],
     bounds=[
         'single steps from an arbitrary valid pre-state (no histories): one roster IQ / one connect (+ the answer to its roster request) / one disconnect / one presence',
         B_PRE, B_IQ,
         'from attribute of a roster IQ: absent, or any string <= 5 UTF-16 units (covers empty, own bare, own full with resources up to 3 units, domain, stranger, prefix/suffix/case look-alikes of those lengths)',
         'roster IQ shape fixed per instance: exactly one <query xmlns=jabber:iq:roster> child with 0, 1 or 2 <item> children carrying jid/name/subscription attributes',
-        'presence table: 2 contacts x 1 resource (quick) / x 2 resources (thorough), map capacity 3; roster map capacity 4',
+        'presence table: 2 contacts x 2 resources in the presence instance (x 1 in connected/disconnected), map capacity 3; roster map capacity 4',
         'the view is compared with the reference at one solver-chosen probe key of maximal length (all stored keys are within that length), which is equivalent to comparing all keys',
     ],
     assumptions=[
